@@ -155,3 +155,7 @@ def evaluate(cfg):
         o.check("coarser grid is less accurate (geometric convergence)", e2 >= e1 or max(e1, e2) < 1e-12,
                 detail={"h0.2": e1, "h0.25": e2}, key="grid-convergence")
     return o
+
+
+def cost(cfg):
+    return sum((l + 1) ** 2 * m for l, m in zip(cfg["l"], cfg["M"])) * (2 if cfg["kind"] == "convergence" else 1)
